@@ -661,6 +661,16 @@ ConvergedLive ==
     /\ n \in Known(o)
     /\ st[o][n].ver = Own(n).ver
     /\ st[o][n].ents = Own(n).ents
+\* C18 / C11: what the survivors hold about a third node (in particular one that left or died) spreads among
+\* them: at a fixpoint of fair exchanges any two live nodes that both know n hold the same version of it,
+\* the same entries and the same left flag
+ConvergedKnown ==
+  \A o, p \in Node : (o # p /\ LiveNode(o) /\ LiveNode(p)) =>
+    \A n \in (Known(o) \cap Known(p)) \ {o, p} :
+      (Untainted(o, n) /\ Untainted(p, n)) =>
+        /\ st[o][n].ver = st[p][n].ver
+        /\ st[o][n].ents = st[p][n].ents
+        /\ st[o][n].left = st[p][n].left
 \* C03: a delivered delta that holds something newer about a known node moves
 \* that view forward (so the version gap shrinks with every productive leg)
 PullProgressFor(slot) ==
